@@ -56,12 +56,12 @@ from . import real as R
 PY = common.PY
 LIBC = os.path.join(common.REPO, "lib", "c")
 LIBGO = os.path.join(common.REPO, "lib", "go", "bitproto.go")
-NPROGS = {"quick": 110, "thorough": 1500}
+NPROGS = {"quick": 110, "thorough": 1200}
 WORKERS = 16
 
 # ===================================================================== helper scripts (scratch)
 CLI_SERVER = r'''
-import json, os, sys, traceback
+import json, os, signal, sys, traceback
 from bitproto import _main
 
 for line in sys.stdin:
@@ -74,6 +74,7 @@ for line in sys.stdin:
             os.dup2(fd, 1)
             os.dup2(fd, 2)
             os.chdir(job["cwd"])
+            signal.alarm(180)  # watchdog: a hanging compilation must not hang the harness
             sys.argv = ["bitproto"] + job["argv"]
             try:
                 _main.run_bitproto()
@@ -582,7 +583,7 @@ def build_file(rng: random.Random, pg: G.ProgramGen, visible: List[G.Schema], id
     return s
 
 
-def build_program(rng: random.Random, k: int) -> Prog:
+def build_program(rng: random.Random) -> Prog:
     r = rng
     shape = r.choices([s for s, _ in SHAPE_WEIGHTS], [w for _, w in SHAPE_WEIGHTS])[0]
     traditional = r.random() < 0.5
@@ -849,6 +850,13 @@ def run_tool(args: List[str], cwd: str, timeout: int = 120) -> Tuple[int, str, s
         return 124, "", "timeout"
 
 
+def timed_out(rc: int, stats: Dict[str, int]) -> bool:
+    if rc == 124:
+        stats["tool-timeout(inconclusive)"] = stats.get("tool-timeout(inconclusive)", 0) + 1
+        return True
+    return False
+
+
 def c_check(env: Env, outdir: str, main_hdr: Optional[str], optimize: bool, cfg: str, findings: List[Dict[str, Any]],
             stats: Dict[str, int], include_tainted: bool = False) -> None:
     hdrs = sorted(f for f in os.listdir(outdir) if f.endswith(".h"))
@@ -861,6 +869,8 @@ def c_check(env: Env, outdir: str, main_hdr: Optional[str], optimize: bool, cfg:
     for s in srcs:
         rc, _, err = run_tool(["gcc", "-c", "-Werror=implicit-function-declaration"] + inc + [s, "-o", s[:-2] + ".o"], outdir)
         stats["gcc-c"] = stats.get("gcc-c", 0) + 1
+        if timed_out(rc, stats):
+            return
         if rc != 0:
             failed = True
             findings.append({"cfg": cfg, "kind": "gcc-error", "file": s, "detail": err[:1500],
@@ -870,6 +880,8 @@ def c_check(env: Env, outdir: str, main_hdr: Optional[str], optimize: bool, cfg:
             if optimize:  # the other half of the generated text: the big-endian branch
                 rc, _, err = run_tool(["gcc", "-fsyntax-only", "-DBP_BIG_ENDIAN", "-Werror=implicit-function-declaration"] + inc + [s], outdir)
                 stats["gcc-syntax-BE"] = stats.get("gcc-syntax-BE", 0) + 1
+                if timed_out(rc, stats):
+                    return
                 if rc != 0:
                     failed = True
                     findings.append({"cfg": cfg, "kind": "gcc-error", "file": s, "detail": err[:1500],
@@ -881,15 +893,20 @@ def c_check(env: Env, outdir: str, main_hdr: Optional[str], optimize: bool, cfg:
     stats["c-structs-empty-or-containing-empty"] = stats.get("c-structs-empty-or-containing-empty", 0) + len(scan["tainted"])
     if failed:
         return
-    open(os.path.join(outdir, "bpv_probe.c"), "w").write(c_probe_source(hdrs, scan))
+    probe_c = c_probe_source(hdrs, scan)
+    open(os.path.join(outdir, "bpv_probe.c"), "w").write(probe_c)
     link = ["gcc", "-Werror=implicit-function-declaration"] + inc + ["bpv_probe.c"] + objs + ([] if optimize else [env.rt_obj]) + ["-o", "bpv_probe"]
     rc, _, err = run_tool(link, outdir)
     stats["link"] = stats.get("link", 0) + 1
+    if timed_out(rc, stats):
+        return
     if rc != 0:
-        findings.append({"cfg": cfg, "kind": "c-probe-error", "file": "bpv_probe.c", "detail": err[:1500],
+        findings.append({"cfg": cfg, "kind": "c-probe-error", "file": "bpv_probe.c", "detail": err[:1500], "probe": probe_c[:6000],
                          "cmd": "gcc probe.c (every header twice, every macro, address of every declared Encode/Decode/Json) + all generated objects"})
         return
-    rc, out, err = run_tool([os.path.join(outdir, "bpv_probe")], outdir, timeout=20)
+    rc, out, err = run_tool([os.path.join(outdir, "bpv_probe")], outdir, timeout=60)
+    if timed_out(rc, stats):
+        return
     if rc != 0:
         findings.append({"cfg": cfg, "kind": "c-probe-run", "file": "bpv_probe", "detail": f"rc={rc} {err[:300]}"})
         return
@@ -905,12 +922,14 @@ def c_check(env: Env, outdir: str, main_hdr: Optional[str], optimize: bool, cfg:
     rc, _, err = run_tool(["g++", "-fsyntax-only"] + inc + ["bpv_probe.cpp"], outdir)
     stats["g++"] = stats.get("g++", 0) + 1
     stats["layout-asserts"] = stats.get("layout-asserts", 0) + n_assert
+    if timed_out(rc, stats):
+        return
     if rc != 0:
         errors = re.findall(r"error: ([^\n]+)", err)
         sa = [e[len("static assertion failed: "):] for e in errors if e.startswith("static assertion failed: ")]
         other = [e for e in errors if not e.startswith("static assertion failed")]
         findings.append({"cfg": cfg, "kind": "cxx-layout" if sa and not other else "cxx-error",
-                         "file": "bpv_probe.cpp", "asserts": sa[:10], "detail": err[:1500],
+                         "file": "bpv_probe.cpp", "asserts": sa[:10], "detail": err[:1500], "probe": src[:6000],
                          "cmd": "g++ -fsyntax-only TU: every header twice + static_assert(sizeof/offsetof == C values) + calls of the whole API"})
 
 
@@ -1342,7 +1361,10 @@ def run_job(env: Env, job: Dict[str, Any], root: str, include_tainted: bool = Fa
                 stats["cli"] = stats.get("cli", 0) + 1
                 new = sorted(set(os.listdir(outdir)) - before)
                 outputs[f["fname"]] = new
-                if rc != 0:
+                if rc == -14:
+                    cli_failed = True
+                    stats["cli-watchdog-timeout(inconclusive)"] = stats.get("cli-watchdog-timeout(inconclusive)", 0) + 1
+                elif rc != 0:
                     cli_failed = True
                     tb = "Traceback (most recent call last)" in err
                     last = [l for l in err.strip().split("\n") if l.strip()][-1:] or [""]
@@ -1362,9 +1384,12 @@ def run_job(env: Env, job: Dict[str, Any], root: str, include_tainted: bool = Fa
                 mods: List[Tuple[str, str]] = []
                 copies = py_prepare(outdir, outputs, job["files"], mods)
                 if mods:
-                    p = subprocess.run([PY, env.pyprobe_path, outdir] + [m for m, _ in mods], cwd=outdir, env=env.py_env,
-                                       capture_output=True, text=True, errors="replace")
-                    _py_account(p.returncode, p.stdout, p.stderr, mods, findings, stats, copies)
+                    try:
+                        p = subprocess.run([PY, env.pyprobe_path, outdir] + [m for m, _ in mods], cwd=outdir, env=env.py_env,
+                                           capture_output=True, text=True, errors="replace", timeout=300)
+                        _py_account(p.returncode, p.stdout, p.stderr, mods, findings, stats, copies)
+                    except subprocess.TimeoutExpired:
+                        timed_out(124, stats)
             elif cfg == "go":
                 go_check(env, outdir, outputs, job["files"], findings, stats)
         return res
@@ -1556,7 +1581,7 @@ def replay_of(p: Prog, f: Dict[str, Any]) -> Dict[str, Any]:
         "kind": "impl-vs-spec",
         "input": {"files": p.texts, "argv": ["python", "-m", "bitproto._main"] + argv if argv else cmds[-1], "cwd": "directory holding the files; output directory ../out_<cfg>"},
         "configuration": cfg, "all_commands_of_configuration": cmds, "check": f["kind"], "checked_file": f.get("file"),
-        "follow_up": f.get("cmd"),
+        "follow_up": f.get("cmd"), "follow_up_source": f.get("probe"),
         "expected_by_spec": expected,
         "observed_impl": f.get("detail"),
         "shape": p.shape, "features": p.feats,
@@ -1573,7 +1598,7 @@ def check(run: common.Run, drv: Any, rng: random.Random, tier: str) -> None:
             run.notes["runtime_build_error"] = env.rt_error
         try:
             witnesses(run, env)
-            progs = [build_program(rng, k) for k in range(n)]
+            progs = [build_program(rng) for _ in range(n)]
             jobs = [job_of(p) for p in progs]
             ex = concurrent.futures.ThreadPoolExecutor(WORKERS)
             try:
